@@ -282,3 +282,10 @@ Proof.
     + intros p q1 q2 Hp Hq1. vm_compute in Hp. destruct Hp as [<-|[<-|[<-|[]]]]; contradiction.
   - split; [vm_compute; reflexivity|]. split; vm_compute; reflexivity.
 Qed.
+
+(* the same document through the decoder family's byte-level model (tokenizer + token decoder) *)
+Example C01_bytes_example :
+  env_items_ok_b rt_env = true /\
+  lex rt_txt = (tokens_of rt_tree, false) /\
+  CodecDec.decode_bytes inst_orc rt_env [82] rt_txt = Ok rt_msg.
+Proof. split; [vm_compute; reflexivity|]. split; vm_compute; reflexivity. Qed.
